@@ -1,4 +1,4 @@
-import SSVerif.Proofs.LexFlatNodes
+import SSVerif.Proofs.LexFlatSound
 /-!
 # C02 ∘ M10 — the lextree the code builds against the flat network C02's optimum is defined over
 
@@ -7,6 +7,13 @@ node by node to the real lextree on every run of the C01 check; `FlatNet` (Model
 unshared network.  `Agree M li`: the lextree's inputs are those of the flat model `M` — same silence phone, same
 pronunciations / filler flags of the words on the arcs, states `< nState`, phones `< nCi`, null arcs transitively
 closed (the driver's `nullClosed` without its cost clause).  `fsgOf M` is the FSG with arc ids = positions in `M.arcs`.
+
+The structural comparison of the C02 driver (`lexCompare`: the root-to-leaf paths of the dumped lextree, one copy per context
+phone of the root's / leaf's context set, against the instance chains of `FlatNet.build`, as keys
+(arc, lc, rc, presented phones, per-position (ssid, tmat, entry))) is here a theorem about `buildLexTree`, in both directions:
+`C02_flat_instances_in_lextree` (every instance chain is a path), `C02_lextree_paths_are_flat_instances` (every path is an
+instance chain), together `C02_lextree_paths_eq_flat_instances`.  Equality is as SETS of keys (`NodeOf` equates exactly the
+components of a key); multiplicities are not claimed.  The context lists themselves are duplicate-free (`C02_lextree_context_sets`).
 -/
 namespace SSVerif.LexFlat
 open SSVerif.Search SSVerif.FlatNet
@@ -29,7 +36,7 @@ phone: a filler is one root-and-leaf pnode of `root[s]` that carries the arc, pr
 the context-independent ssid and transition matrix; any other word has, for EVERY left context `lc` of `s`, a root-and-leaf
 pnode of `root[s]` that carries the arc, presents its phone, has `lc` in its context set, the ssid of `(phone, lc, SIL)` and the
 entry penalty `(logp >> SHIFT) + wip + pip`. -/
-theorem C02_single_phone_instances_in_lextree_partial (li : LexIn) (g : SSVerif.Hist.Fsg) (hsil : li.sil < li.nCi) {s : Nat} (hs : s < li.nState)
+theorem C02_single_phone_instances_in_lextree (li : LexIn) (g : SSVerif.Hist.Fsg) (hsil : li.sil < li.nCi) {s : Nat} (hs : s < li.nState)
     {lid : Nat} (hlid : lid ∈ stateArcs g s) (h1 : (li.word (g.link lid).wid.toNat).pron.length = 1) :
     if (li.word (g.link lid).wid.toNat).dictFiller then
       ∃ r ∈ (buildLexTree li g).roots s,
@@ -50,9 +57,8 @@ state and EVERY right context `rc` of its target state there are a root `r` of `
 `(p₀, lc, p₁)`, entry `wip + pip`), word-internal pnodes `qf 1 … qf (n−2)` (ssid / transition matrix / entry `pip` of their
 position) and a leaf `l` carrying the arc (`rc` in its context set, ssid of `(p_{n−1}, p_{n−2}, rc)`, entry
 `(logp >> SHIFT) + pip`), each a child of the one before in the sense of `fsg_search_pnode_trans`.
-Named `_partial`: the converse inclusion (the lextree has no other root-to-leaf paths) is not proved; it is what the
-structural comparison of the C02 driver checks per case. -/
-theorem C02_multi_phone_instances_in_lextree_partial (li : LexIn) (g : SSVerif.Hist.Fsg) (tm : Nat → Nat) (hsil : li.sil < li.nCi)
+The converse inclusion (the lextree has no other root-to-leaf paths) is `C02_lextree_paths_are_word_arcs`. -/
+theorem C02_multi_phone_instances_in_lextree (li : LexIn) (g : SSVerif.Hist.Fsg) (tm : Nat → Nat) (hsil : li.sil < li.nCi)
     (htm : SsidTmat li tm)
     (hpron : ∀ s, s < li.nState → ∀ lid ∈ stateArcs g s, 1 ≤ (li.word (g.link lid).wid.toNat).pron.length)
     {s : Nat} (hs : s < li.nState) {lid : Nat} (hlid : lid ∈ stateArcs g s)
@@ -93,8 +99,8 @@ of `M` with `instsOfArc M i a w = some insts`:
 * `n ≥ 2` phones: for EVERY word-initial instance `R` and EVERY word-final instance `L` there is a path
   `r → qf 1 → … → qf (n−2) → l` with `r` a root of `root[a.src]` that is `R`, `qf x.pos` the word-internal instance `x`, `l` a leaf
   that is `L`, each pnode a child of the one before.
-`_partial`: the converse (no other root-to-leaf paths, no other context bits) is not proved. -/
-theorem C02_flat_instances_in_lextree_partial {M : Model} {li : LexIn} {tm : Nat → Nat} (h : Agree M li) (hl : LookAgree M li)
+The converse (no other root-to-leaf paths, no other context bits) is `C02_lextree_paths_are_flat_instances`. -/
+theorem C02_flat_instances_in_lextree {M : Model} {li : LexIn} {tm : Nat → Nat} (h : Agree M li) (hl : LookAgree M li)
     (htm : SsidTmat li tm) {i : Nat} {a : Arc} {w : Word} (hx : (i, a, w) ∈ wordArcs M) {insts : List Inst}
     (hi : instsOfArc M i a w = some insts) :
     (∀ p, w.pron = [p] → ∀ x ∈ insts, ∃ r ∈ (buildLexTree li (fsgOf M)).roots a.src,
@@ -133,5 +139,181 @@ theorem C02_lextree_pnodes_are_flat_instances {M : Model} {li : LexIn} (h : Agre
          (∀ c, ((buildLexTree li (fsgOf M)).node x).ctxt.testBit c = true →
             ∃ y ∈ insts, NodeOf ((buildLexTree li (fsgOf M)).node x) y ∧ (y.lc = some c ∨ y.rc = some c))) :=
   bridge_nodes h hl hall
+
+/-- **Conversely, every root-to-leaf path of the lextree the code builds is the path of a word arc** (in the lextree's own terms,
+for every FSG `g` and every lookup functions).  `q 0` a root of `root[s]`, every `q (j+1)` a child of `q j` in the sense of
+`fsg_search_pnode_trans`, `q k` a leaf.  Then (`PathFacts`) there is a word arc `lid` leaving `s` whose word has exactly `k + 1`
+phones and: `k = 0` — `q 0` is the pnode of the arc's single-phone word (every bit `c` of its context set is a left context of
+`s`, `ssid = lrdiph p c`) or filler; `k ≥ 1` — `q 0` is a word-initial pnode of the word (every bit `c` of its context set is a
+left context of `s`, `ssid = ldiph p₀ p₁ c`, entry `wip + pip`), `q j` has the ssid / transition matrix / entry `pip` of the
+word's position `j`, and `q k` is a word-final pnode that carries the arc (every bit `c` of its context set is a right context
+of the arc's target state, `ssid = rssid p_k p_{k−1} c`, entry `(logp >> SHIFT) + pip`).  Proof: the parents of a pnode never
+change after it is hooked, and are either the roots of ONE shared set or ONE pnode (`ParOf`), so a path up from a leaf can only
+be the chain recorded for the leaf's arc (`path_unique`). -/
+theorem C02_lextree_paths_are_word_arcs (li : LexIn) (g : SSVerif.Hist.Fsg) (tm : Nat → Nat) (hsil : li.sil < li.nCi) (htm : SsidTmat li tm)
+    (hpron : ∀ s, s < li.nState → ∀ lid ∈ stateArcs g s, 1 ≤ (li.word (g.link lid).wid.toNat).pron.length)
+    {s : Nat} (hs : s < li.nState) (k : Nat) (q : Nat → Nat) (h0 : q 0 ∈ (buildLexTree li g).roots s)
+    (hch : ∀ j, j < k → q (j + 1) ∈ (buildLexTree li g).children (q j)) (hleaf : ((buildLexTree li g).node (q k)).leaf = true) :
+    PathFacts li g (fun s => ctxList li ((ctxFlags li g).1.getD s 0)) (fun lid => ctxList li ((ctxFlags li g).2.getD (g.link lid).dst 0))
+      (buildLexTree li g).nodes s k q :=
+  build_paths_sound li g tm hsil htm hpron hs k q h0 hch hleaf
+
+/-- **Every root-to-leaf path of the lextree the code builds is an instance chain of ONE word arc of the flat network** (the
+inclusion "unshared paths of `buildLexTree` ⊆ instances of `FlatNet.instsOfArc`", in the flat model's terms).  Hypotheses as in
+`C02_flat_instances_in_lextree`, plus `hall` (the flat model has every model-definition entry its instances need).  For a path
+`q 0 → … → q k` (root of `root[s]`, children, leaf) there are a word arc `(i, a, w)` of `M` leaving `s` whose word has `k + 1`
+phones, carried by the leaf (`link = i`), and its instances `insts`, such that
+* `k = 0`: `q 0` is the filler instance, or for EVERY bit `c` of its context set `q 0` is the instance with left context `c`;
+* `k ≥ 1`: for EVERY bit `c` of the root's context set `q 0` is the word-initial instance with left context `c`; `q j` is the
+  word-internal instance of position `j`; for EVERY bit `c` of the leaf's context set `q k` is the word-final instance with
+  right context `c`. -/
+theorem C02_lextree_paths_are_flat_instances {M : Model} {li : LexIn} {tm : Nat → Nat} (h : Agree M li) (hl : LookAgree M li)
+    (htm : SsidTmat li tm) (hall : ∀ i a w, (i, a, w) ∈ wordArcs M → ∃ insts, instsOfArc M i a w = some insts)
+    {s : Nat} (hs : s < li.nState) (k : Nat) (q : Nat → Nat) (h0 : q 0 ∈ (buildLexTree li (fsgOf M)).roots s)
+    (hch : ∀ j, j < k → q (j + 1) ∈ (buildLexTree li (fsgOf M)).children (q j))
+    (hleaf : ((buildLexTree li (fsgOf M)).node (q k)).leaf = true) :
+    ∃ i a w insts, (i, a, w) ∈ wordArcs M ∧ instsOfArc M i a w = some insts ∧ a.src = s ∧ w.pron.length = k + 1 ∧
+      ((buildLexTree li (fsgOf M)).node (q k)).link = i ∧
+      (k = 0 → (∃ y ∈ insts, NodeOf ((buildLexTree li (fsgOf M)).node (q 0)) y ∧ y.lc = none ∧ y.rc = none) ∨
+        (∀ c, ((buildLexTree li (fsgOf M)).node (q 0)).ctxt.testBit c = true →
+          ∃ y ∈ insts, NodeOf ((buildLexTree li (fsgOf M)).node (q 0)) y ∧ y.lc = some c)) ∧
+      (1 ≤ k →
+        (∀ c, ((buildLexTree li (fsgOf M)).node (q 0)).ctxt.testBit c = true →
+          ∃ R ∈ insts, R.isRoot = true ∧ R.lc = some c ∧ NodeOf ((buildLexTree li (fsgOf M)).node (q 0)) R) ∧
+        (∀ j, 1 ≤ j → j < k → ∃ x ∈ insts, x.isRoot = false ∧ x.isLeaf = false ∧ x.pos = j ∧
+          NodeOf ((buildLexTree li (fsgOf M)).node (q j)) x) ∧
+        (∀ c, ((buildLexTree li (fsgOf M)).node (q k)).ctxt.testBit c = true →
+          ∃ L ∈ insts, L.isLeaf = true ∧ L.rc = some c ∧ NodeOf ((buildLexTree li (fsgOf M)).node (q k)) L)) :=
+  bridge_paths h hl htm hall hs k q h0 hch hleaf
+
+/-- **The unshared paths of the lextree the code builds are exactly the instance chains of the flat network** — both
+inclusions in one statement (equality as sets of keys (arc, lc, rc, presented phones, per-position (ssid, tmat, entry)); this
+is the driver's per-case `lexCompare`, for every FSG, dictionary and lookups with `Agree`, `LookAgree`, `SsidTmat`, `hall`). -/
+theorem C02_lextree_paths_eq_flat_instances {M : Model} {li : LexIn} {tm : Nat → Nat} (h : Agree M li) (hl : LookAgree M li)
+    (htm : SsidTmat li tm) (hall : ∀ i a w, (i, a, w) ∈ wordArcs M → ∃ insts, instsOfArc M i a w = some insts) :
+    -- flat ⊆ lextree
+    (∀ i a w insts, (i, a, w) ∈ wordArcs M → instsOfArc M i a w = some insts →
+      (∀ p, w.pron = [p] → ∀ x ∈ insts, ∃ r ∈ (buildLexTree li (fsgOf M)).roots a.src,
+        NodeOf ((buildLexTree li (fsgOf M)).node r) x ∧ (w.filler = true → AllCtx ((buildLexTree li (fsgOf M)).node r))) ∧
+      (∀ p0 p1 rest, w.pron = p0 :: p1 :: rest → ∀ R ∈ insts, R.isRoot = true → ∀ L ∈ insts, L.isLeaf = true →
+        ∃ r ∈ (buildLexTree li (fsgOf M)).roots a.src, ∃ (qf : Nat → Nat) (l : Nat),
+          NodeOf ((buildLexTree li (fsgOf M)).node r) R ∧ NodeOf ((buildLexTree li (fsgOf M)).node l) L ∧
+          (∀ x ∈ insts, x.isRoot = false → x.isLeaf = false →
+            1 ≤ x.pos ∧ x.pos ≤ w.pron.length - 2 ∧ NodeOf ((buildLexTree li (fsgOf M)).node (qf x.pos)) x) ∧
+          (w.pron.length - 2 = 0 → l ∈ (buildLexTree li (fsgOf M)).children r) ∧
+          (1 ≤ w.pron.length - 2 →
+            qf 1 ∈ (buildLexTree li (fsgOf M)).children r ∧
+            (∀ j, 1 ≤ j → j < w.pron.length - 2 → qf (j + 1) ∈ (buildLexTree li (fsgOf M)).children (qf j)) ∧
+            l ∈ (buildLexTree li (fsgOf M)).children (qf (w.pron.length - 2))))) ∧
+    -- lextree ⊆ flat
+    (∀ s, s < li.nState → ∀ (k : Nat) (q : Nat → Nat), q 0 ∈ (buildLexTree li (fsgOf M)).roots s →
+      (∀ j, j < k → q (j + 1) ∈ (buildLexTree li (fsgOf M)).children (q j)) → ((buildLexTree li (fsgOf M)).node (q k)).leaf = true →
+      ∃ i a w insts, (i, a, w) ∈ wordArcs M ∧ instsOfArc M i a w = some insts ∧ a.src = s ∧ w.pron.length = k + 1 ∧
+        ((buildLexTree li (fsgOf M)).node (q k)).link = i ∧
+        (k = 0 → (∃ y ∈ insts, NodeOf ((buildLexTree li (fsgOf M)).node (q 0)) y ∧ y.lc = none ∧ y.rc = none) ∨
+          (∀ c, ((buildLexTree li (fsgOf M)).node (q 0)).ctxt.testBit c = true →
+            ∃ y ∈ insts, NodeOf ((buildLexTree li (fsgOf M)).node (q 0)) y ∧ y.lc = some c)) ∧
+        (1 ≤ k →
+          (∀ c, ((buildLexTree li (fsgOf M)).node (q 0)).ctxt.testBit c = true →
+            ∃ R ∈ insts, R.isRoot = true ∧ R.lc = some c ∧ NodeOf ((buildLexTree li (fsgOf M)).node (q 0)) R) ∧
+          (∀ j, 1 ≤ j → j < k → ∃ x ∈ insts, x.isRoot = false ∧ x.isLeaf = false ∧ x.pos = j ∧
+            NodeOf ((buildLexTree li (fsgOf M)).node (q j)) x) ∧
+          (∀ c, ((buildLexTree li (fsgOf M)).node (q k)).ctxt.testBit c = true →
+            ∃ L ∈ insts, L.isLeaf = true ∧ L.rc = some c ∧ NodeOf ((buildLexTree li (fsgOf M)).node (q k)) L))) :=
+  ⟨fun _ _ _ _ hx hi => C02_flat_instances_in_lextree h hl htm hx hi,
+   fun _ hs k q h0 hch hleaf => bridge_paths h hl htm hall hs k q h0 hch hleaf⟩
+
+section NonVacuity
+open SSVerif.Generated.Search (wposSingle wposBegin wposInternal wposEnd senscrShift)
+
+/-! ### non-vacuity: a flat model and lextree inputs that meet every hypothesis -/
+
+/-- one two-phone word `[1, 2]` on an arc `0 → 1`; silence is phone 0 -/
+def exM : Model :=
+  { sil := 0, start := 0, final := 1, arcs := [{ src := 0, dst := 1, logp := 0, wid := some 0 }],
+    word := fun w => if w = 0 then some { filler := false, pron := [1, 2] } else none,
+    ssid := fun ci lc rc wpos => some (ci + 10 * lc + 100 * rc + 1000 * wpos),
+    ciSsid := fun p => some p, ciTmat := fun _ => some 7, wip := 0, pip := 0 }
+
+def exLi : LexIn :=
+  { nCi := 3, sil := 0, wip := 0, pip := 0, shift := senscrShift, nst := 3, nState := 2,
+    word := fun w => if w = 0 then { pron := [1, 2] } else { pron := [] },
+    lrdiph := fun p l => p + 10 * l + 100 * 0 + 1000 * wposSingle,
+    ldiph := fun p0 p1 l => p0 + 10 * l + 100 * p1 + 1000 * wposBegin,
+    internal := fun _ k => [1, 2].getD k 0 + 10 * [1, 2].getD (k - 1) 0 + 100 * [1, 2].getD (k + 1) 0 + 1000 * wposInternal,
+    rcMap := fun _ _ r => r, rcSsid := fun pl pp j => pl + 10 * pp + 100 * j + 1000 * wposEnd,
+    ciSsid := fun p => p, tmat := fun _ => 7 }
+
+theorem exAgree : Agree exM exLi := by
+  refine ⟨rfl, by decide, ?_, ?_, ?_⟩
+  · intro a ha wid hw
+    simp only [exM, List.mem_singleton] at ha
+    subst ha
+    simp only [Option.some.injEq] at hw
+    subst hw
+    exact ⟨{ filler := false, pron := [1, 2] }, rfl, rfl, rfl, by simp, by decide⟩
+  · intro a ha
+    simp only [exM, List.mem_singleton] at ha
+    subst ha
+    exact ⟨by decide, by decide⟩
+  · intro a ha b _ hw
+    simp only [exM, List.mem_singleton] at ha
+    subst ha
+    cases hw
+
+theorem exWord {wid : Nat} {wd : Word} (h : exM.word wid = some wd) : wid = 0 ∧ wd = { filler := false, pron := [1, 2] } := by
+  by_cases hw : wid = 0
+  · subst hw
+    simp only [exM, if_true, Option.some.injEq] at h
+    exact ⟨rfl, h.symm⟩
+  · simp [exM, hw] at h
+
+theorem exLook : LookAgree exM exLi := by
+  refine ⟨rfl, rfl, rfl, ?_, ?_, ?_, ?_, ?_, ?_, ?_⟩
+  · intro wid wd h
+    obtain ⟨h1, h2⟩ := exWord h
+    subst h1 h2; rfl
+  · intro p ss h; simp only [exM, Option.some.injEq] at h; exact h
+  · intro p t h; simp only [exM, Option.some.injEq] at h; exact h
+  · intro p l ss h; simp only [exM, Option.some.injEq] at h; exact h
+  · intro p0 l p1 ss h; simp only [exM, Option.some.injEq] at h; exact h
+  · intro wid wd k ss hw h
+    obtain ⟨h1, h2⟩ := exWord hw
+    subst h1 h2
+    simp only [exM, Option.some.injEq] at h
+    simp only [exLi, Nat.add_sub_cancel]
+    exact h
+  · intro pl pp r ss h; simp only [exM, Option.some.injEq] at h; exact h
+
+theorem exTm : SsidTmat exLi (fun _ => 7) := fun _ _ => rfl
+
+theorem exAll : ∀ i a w, (i, a, w) ∈ wordArcs exM → ∃ insts, instsOfArc exM i a w = some insts := by
+  intro i a w hx
+  obtain ⟨ha, wid, hwid, hwd⟩ := (mem_wordArcs exM _).1 hx
+  simp only at ha hwid hwd
+  obtain ⟨h1, h2⟩ := exWord hwd
+  subst h1 h2
+  have hi : i = 0 := by
+    rcases Nat.eq_zero_or_pos i with h | h
+    · exact h
+    · have : exM.arcs[i]? = none := by simp [exM]; omega
+      rw [this] at ha; cases ha
+  subst hi
+  have haa : a = { src := 0, dst := 1, logp := 0, wid := some 0 } := by
+    simp [exM] at ha; exact ha.symm
+  subst haa
+  exact ⟨_, rfl⟩
+
+/-- the hypotheses of `C02_lextree_paths_eq_flat_instances` are met by `exM`, `exLi`, and the word arc has a path -/
+example : ∃ (k : Nat) (q : Nat → Nat), q 0 ∈ (buildLexTree exLi (fsgOf exM)).roots 0 ∧ (∀ j, j < k → q (j + 1) ∈ (buildLexTree exLi (fsgOf exM)).children (q j)) ∧
+    ((buildLexTree exLi (fsgOf exM)).node (q k)).leaf = true := by
+  refine ⟨1, fun j => if j = 0 then 0 else 1, by decide, fun j hj => ?_, by decide⟩
+  have : j = 0 := by omega
+  subst this
+  decide
+
+example := C02_lextree_paths_eq_flat_instances exAgree exLook exTm exAll
+
+end NonVacuity
 
 end SSVerif.LexFlat
